@@ -30,7 +30,7 @@ const (
 	ctrlAddr = "192.168.1.100:60000"
 )
 
-var classNames = []string{"silence", "valid", "len0", "len1", "len63", "len65", "len128", "len1024", "wrong-serial", "serial-0", "wrong-function", "function-ff", "protocol-00", "protocol-19", "malformed-field", "lenN"}
+var classNames = []string{"silence", "valid", "len0", "len1", "len63", "len65", "len128", "len1024", "wrong-serial", "serial-0", "wrong-function", "function-ff", "protocol-00", "protocol-19", "malformed-field", "event-from-S", "lenN"}
 
 // nRegular: the classes a regular scenario draws from; "lenN" (any length 0..1100 but 64, well-formed
 // 64-byte prefix) is only used by the length sweep.
@@ -104,6 +104,12 @@ func build(op *spec.Op, path string, c, k int) []byte {
 	case "function-ff": // beyond every function code the protocol defines
 		d[1] = 0xff
 		return d
+	case "event-from-S": // a well-formed status / event datagram of the addressed controller (function code 0x20)
+		if op.Code == 0x20 {
+			return nil
+		}
+		st := spec.OpByName("GetStatus")
+		return spec.EncodeReply(st, serial, ops.BaselineReply(st))
 	case "protocol-00":
 		d[0] = 0x00
 		return d
@@ -148,6 +154,10 @@ var debugClients = false
 // bindPort: the clients of the scenario bind a fixed local port (0 = ephemeral). Set by the body.
 var bindPort uint16 = 0
 
+// listenPort: the client's listen address is 0.0.0.0:listenPort (0 = none configured); no listener
+// runs - the address is only configured. Set by the body.
+var listenPort uint16 = 0
+
 func client(path string) uhppote.IUHPPOTE {
 	devices := []uhppote.Device{}
 	switch path {
@@ -161,7 +171,11 @@ func client(path string) uhppote.IUHPPOTE {
 	if bindPort != 0 {
 		bind = types.BindAddrFrom(netip.MustParseAddr("0.0.0.0"), bindPort)
 	}
-	return uhppote.NewUHPPOTE(bind, types.BroadcastAddrFrom(netip.MustParseAddr("192.168.1.255"), 60000), types.ListenAddr{}, T, devices, debugClients)
+	listen := types.ListenAddr{}
+	if listenPort != 0 {
+		listen = types.ListenAddrFrom(netip.MustParseAddr("0.0.0.0"), listenPort)
+	}
+	return uhppote.NewUHPPOTE(bind, types.BroadcastAddrFrom(netip.MustParseAddr("192.168.1.255"), 60000), listen, T, devices, debugClients)
 }
 
 func scenario(op *spec.Op, path string, maxLen int) e1.Scenario {
@@ -211,6 +225,10 @@ func scenarioP(op *spec.Op, path string, maxLen int, lengths bool, burst bool, p
 	body := func() {
 		debugClients = burst || lengths
 		bindPort = port
+		listenPort = 0
+		if strings.Contains(prelude, "listen=bind") {
+			listenPort = port
+		}
 		o = &observation{}
 		cur := o
 		ctrl := &farm.Controller{Addr: ctrlAddr}
@@ -280,7 +298,7 @@ func scenarioP(op *spec.Op, path string, maxLen int, lengths bool, burst bool, p
 		}
 		vs.Net().Env = &farm.Farm{Controllers: []*farm.Controller{ctrl}}
 		u := client(path)
-		if prelude != "" {
+		if prelude != "" && prelude != "listen=bind" {
 			inPrelude = true
 			for _, part := range strings.Split(prelude, "+") {
 				name := part[:strings.Index(part, "/")]
@@ -413,6 +431,14 @@ func main() {
 		// (not TCP: datagrams arriving together on a stream are one longer read, not a sequence)
 		for _, path := range []string{"broadcast", "udp"} {
 			scenarios = append(scenarios, burstScenario(spec.OpByName(name), path, 3))
+		}
+	}
+	// a client whose (configured, not running) listen address shares its port with the fixed bind port
+	for _, name := range []string{"GetTime", "GetCardByID", "GetStatus"} {
+		for _, path := range []string{"broadcast", "udp", "tcp"} {
+			sc := scenarioP(spec.OpByName(name), path, 2, false, false, 60001, "listen=bind")
+			sc.Name += "/bind=60001/listen-address-on-the-same-port"
+			scenarios = append(scenarios, sc)
 		}
 	}
 	// what the controller said in earlier calls of the same client
